@@ -24,6 +24,18 @@ pub fn run_pair(prop: &'static str, idx: u64, rng: &mut Rng, ctx: &Ctx, tweak: f
     let mut sim = TcpSim::new(cfg.clone(), case_tag);
     sim.trace_on = ctx.verbose;
     sim.run(rng);
+    // socket reuse: a second (sometimes third) connection on the same sockets after TIME-WAIT
+    let mut incarnations = 1u16;
+    while incarnations < 3 && rng.chance(1, 3) && sim.stats.completed && sim.stats.events <= cfg.max_events {
+        let tag2 = rng.next_u64();
+        if !sim.reincarnate(rng, tag2, ctx.thorough(), incarnations) {
+            out.count("reuse_not_possible_sockets_not_closed", 1);
+            break;
+        }
+        incarnations += 1;
+        out.count("connections_on_reused_sockets", 1);
+        sim.run(rng);
+    }
     let st = sim.stats.clone();
     if ctx.verbose {
         println!("stats: {:?}", st);
@@ -150,6 +162,7 @@ pub fn monitor_c01() -> super::Monitor {
         id: "C01",
         rule: "two real smoltcp endpoints over a link that drops/duplicates/delays/reorders/corrupts (one byte) per seeded fate schedule, then becomes reliable; stream content is offset-keyed; after every recv: received bytes == peer's bytes at those offsets and never more than written; Finished only after the peer closed and every byte was handed over. A class is a distinct (fault class per direction) or (configuration class) or sequence-wrap kind.",
         assumptions: &[
+            "in a third of the completed runs the same two sockets are reused for one or two further connections after TIME-WAIT has expired (new stream, new faults, fresh per-connection oracle state; virtual time and both interfaces continue)",
             "corruption changes exactly one byte per corrupted frame (always detected by the Internet checksum)",
             "the reader keeps reading in the reliable phase (TIME-WAIT expiry discards unread data)",
         ],
@@ -164,6 +177,7 @@ pub fn monitor_c02() -> super::Monitor {
         id: "C02",
         rule: "same simulation, endpoints polled ONLY on frame arrival and at the instant last returned by poll_at (plus optional early polls). (I) after every poll: SYN-SENT/SYN-RECEIVED/FIN-WAIT-1/CLOSING/LAST-ACK, or ESTABLISHED/CLOSE-WAIT with send_queue()>0, implies Interface::poll_at is Some; (Q) no frame in flight, both poll_at None, no application action enabled, transfer incomplete => stalled for ever; (B) everything delivered and both sockets CLOSED/TIME-WAIT within 3600 s of virtual time after the hostile phase. A class is a fault/config class or completion-time bucket.",
         assumptions: &[
+            "in a third of the completed runs the same two sockets are reused for one or two further connections after TIME-WAIT has expired (new stream, new faults, fresh per-connection oracle state; virtual time and both interfaces continue)",
             "'eventually' is restated as (I)+(Q)+(B); a livelock slower than 3600 virtual seconds is missed",
             "fault model: drop/duplicate/delay/reorder/one-byte corruption; delays far below the sequence-space wrap time",
         ],
@@ -178,6 +192,7 @@ pub fn monitor_c05() -> super::Monitor {
         id: "C05",
         rule: "every segment emitted by each socket of the two-endpoint simulation is judged against state derived only from frames delivered to that socket and from the application's writes: data end <= highest right edge (ack + (wnd << negotiated shift)) ever delivered, one-byte probes at the edge excepted; payload + TCP option bytes <= max(announced MSS,48) (536 if absent) and <= MTU; payload == the application's bytes at those offsets (also retransmitted); no gap in new data; FIN exactly at the end of the written stream, never moving, nothing beyond it; SYN window == free buffer unscaled; later window fields << negotiated shift <= receive buffer. A class is a fault/config class.",
         assumptions: &[
+            "in a third of the completed runs the same two sockets are reused for one or two further connections after TIME-WAIT has expired (new stream, new faults, fresh per-connection oracle state; virtual time and both interfaces continue)",
             "learned window = maximum right edge over all valid segments delivered to the socket (weakest sound reading: a stack with a smaller view only sends less)",
             "MSS below 48 is treated as 48 (the lower clamp is a listed mechanism of the property)",
             "the device does not declare max_burst_size in these runs, so the SYN window equals the free receive buffer capped at 65535",
